@@ -9,6 +9,11 @@ use crate::{oblige, reach};
 use std::mem::ManuallyDrop;
 
 const N: usize = 3;
+/// Thread count used by the harness bodies (set per harness; 3 unless stated otherwise).
+static mut NT: usize = N;
+fn nt() -> usize {
+    unsafe { NT }
+}
 /// Bound on the queue length in the harnesses (labelled bounded).
 const Q: usize = 2;
 const SEND: u8 = 30;
@@ -86,7 +91,7 @@ fn chan_exec() -> (ManuallyDrop<crate::rt::Execution>, Channel) {
 
 /// `qlen = Some(l)`: channel 0 has exactly `l` queued messages (path-concrete queue length).
 fn chan_exec_len(qlen: Option<usize>) -> (ManuallyDrop<crate::rt::Execution>, Channel) {
-    let mut set = any_set(N);
+    let mut set = any_set(nt());
     any_pending_ops(&mut set, |k| match k {
         0 => None,
         1 => Some(mk_op(0, Action::MsgSend.into())),
@@ -151,7 +156,7 @@ fn send_body(inside: bool, qlen: usize) {
     // is exact; that the copy is what is pushed is visible only syntactically (DESIGN §9).
     oblige!("C09.send.queue_grows_by_one", cn.qlen == co.qlen + 1);
     let mut i = 0;
-    while i < N {
+    while i < nt() {
         let (o, n) = (old.th[i], new.th[i]);
         if i == a {
             oblige!("C09.send.sender_unchanged_but_pending_op", n.op == Some((0, SEND)) && n.st == o.st && vv_eq(&n.causality, &o.causality));
@@ -273,7 +278,7 @@ fn recv_body_via(inside: bool, via_try: bool) {
     oblige!("C09.recv.acquires_exactly_the_view_of_the_message_obtained", is_join(&na.causality, &oa.causality, &co.q[0]));
     oblige!("C09.recv.sender_point_untouched", vv_eq(&cn.sender_sync, &co.sender_sync));
     let mut i = 0;
-    while i < N {
+    while i < nt() {
         let (o, n) = (old.th[i], new.th[i]);
         if i == a {
             oblige!("C09.recv.receiver_only_view_and_op", n.st == o.st && n.op == Some((0, RECV)) && vv_eq(&n.released, &o.released));
@@ -398,11 +403,42 @@ fn c09_try_recv_empty_reports_empty_after_a_branch_point() {
         && schedule_saw().unwrap().th[a].op == Some((0, RECV)) && matches!(schedule_saw().unwrap().th[a].st, StView::Runnable { .. }));
     oblige!("C09.try_recv.empty_changes_nothing", cn.msg_cnt == co.msg_cnt && cn.qlen == co.qlen && vv_eq(&cn.sender_sync, &co.sender_sync));
     let mut i = 0;
-    while i < N {
+    while i < nt() {
         let (o, n) = (old.th[i], new.th[i]);
         oblige!("C09.try_recv.empty_blocks_nobody", if i == a { n.st == o.st && vv_eq(&n.causality, &o.causality) } else { th_view_eq(&o, &n) });
         i += 1;
     }
     reach!("c09_try_recv_empty");
+}
+}
+
+crate::with_fire_forbidden! {
+//@ props=C09,C05,C08 tier=thorough timeout=3000 fns=src/rt/mpsc.rs::Channel::send bounded=threads:N=5(=MAX_THREADS),queue:len=0|1 models=Execution::schedule=probe,Scheduler::switch=counting,VersionVec::join=s_vv_models_agree
+#[kani::proof]
+#[kani::unwind(7)]
+#[kani::stub(crate::rt::execution::Execution::schedule, crate::rt::execution::Execution::schedule_probe_model)]
+#[kani::stub(crate::rt::scheduler::Scheduler::switch, crate::rt::scheduler::verif_kani::switch_counting_model)]
+fn c09_send_n5() {
+    unsafe { NT = 5; }
+    let inside: bool = kani::any();
+    match (kani::any::<bool>(), inside) {
+        (false, false) => send_body(false, 0),
+        (false, true) => send_body(true, 0),
+        (true, false) => send_body(false, 1),
+        (true, true) => send_body(true, 1),
+    }
+}
+}
+
+crate::with_fire_forbidden! {
+//@ props=C09,C05,C08 tier=thorough timeout=3000 fns=src/rt/mpsc.rs::Channel::recv,src/rt/mpsc.rs::Channel::post_recv bounded=threads:N=5(=MAX_THREADS),queue:len<=2 models=Execution::schedule=probe,Scheduler::switch=counting,VersionVec::join=s_vv_models_agree
+#[kani::proof]
+#[kani::unwind(7)]
+#[kani::stub(crate::rt::execution::Execution::schedule, crate::rt::execution::Execution::schedule_probe_model)]
+#[kani::stub(crate::rt::scheduler::Scheduler::switch, crate::rt::scheduler::verif_kani::switch_counting_model)]
+fn c09_recv_n5() {
+    unsafe { NT = 5; }
+    let inside: bool = kani::any();
+    if inside { recv_body_via(true, false) } else { recv_body_via(false, false) }
 }
 }
